@@ -5,7 +5,7 @@ PROP = {"engines": [("pqueue", "default")],
                       "pushed element or fails (ERR_ALLOC) leaving queue and ledger unchanged; lifted by induction to all histories from cc_pqueue_new_conf (C10_run_refines, "
                       "C10_run_conserves: held multiset = successful pushes minus successful pops) and to draining (C10_drain_sorted, C10_run_drain: non-increasing permutation "
                       "of what is held); the explicit fuel of sift-up/heapify provably suffices. The model transcribes cc_pqueue.c (index macros CC_PARENT/LEFT/RIGHT and nine branch "
-                      "conditions regenerated from the source on every run) and is run against the compiled code under ASan/UBSan on: every arrangement of every multiset of <= 6 "
+                      "conditions re-translated from the source on every run and proved equal to the model's) and is run against the compiled code under ASan/UBSan on: every arrangement of every multiset of <= 6 "
                       "priorities over 3 values, every permutation of 5 and 6 distinct values, every push/pop word of length 8 over three value streams, capacities 1..9 x factors "
                       "{5/4,3/2,2,4,<=1}, sorted/reversed/all-equal streams of 200, every single allocation refusal (constructor and every growth), destroy_cb, malformed capacities, "
                       "and seeded random histories; statuses, priorities, sizes, ledger, and (model vs code) the out-values and the whole buffer prefix are compared after every operation.",
